@@ -34,6 +34,8 @@ Theorem C01_mem16_in_bits32 : forall c, In c sweep_mem16_in32 -> ok013 c = true.
 Proof. apply forallb_forall. exact sweep_mem16_in32_ok. Qed.
 Theorem C01_mem32 : forall c, In c sweep_mem32 -> ok013 c = true.
 Proof. apply forallb_forall. exact sweep_mem32_ok. Qed.
+Theorem C01_imul_imm : forall c, In c sweep_imul -> ok013 c = true.
+Proof. apply forallb_forall. exact sweep_imul_ok. Qed.
 Theorem C01_port : forall c, In c sweep_port -> ok01 c = true.
 Proof. apply forallb_forall. exact sweep_port_ok. Qed.
 Print Assumptions C01_port.
